@@ -134,8 +134,45 @@ def run_one(mod, case):
     return r
 
 
+def _cover_start():
+    """development aid (mc/covmap.py): record which lines of the staged cvxopt/*.py execute (sys.monitoring, each
+    location disabled after its first hit, so the cost is negligible and sys.settrace users are not disturbed)."""
+    stage = os.environ.get('VERIF_STAGE', '\0')
+    hits = set()
+    mon = sys.monitoring
+    tid = mon.COVERAGE_ID
+    try:
+        mon.use_tool_id(tid, 'verifcov')
+    except ValueError:
+        pass
+
+    def line(code, ln):
+        fn = code.co_filename
+        if fn.startswith(stage) or fn.startswith('<cvxopt'):
+            hits.add((os.path.basename(fn), ln))
+        return mon.DISABLE
+    mon.register_callback(tid, mon.events.LINE, line)
+    mon.set_events(tid, mon.events.LINE)
+    mon.restart_events()
+    return hits
+
+
+def _cover_dump(hits, tag):
+    import ctypes, glob
+    d = os.environ['VERIF_COVER']
+    os.makedirs(d, exist_ok=True)
+    with open(os.path.join(d, 'py-%s-%d.json' % (tag, os.getpid())), 'w') as f:
+        json.dump(sorted(hits), f)
+    for so in glob.glob(os.path.join(os.environ.get('VERIF_STAGE', ''), 'cvxopt', '*.so')):
+        try:
+            ctypes.CDLL(so).verif_gcov_dump()
+        except Exception:
+            pass
+
+
 def _worker(mod, tier, seed, flavour, k, nw, skip, journal, outpath, maxviol):
     agg = Agg()
+    hits = _cover_start() if os.environ.get('VERIF_COVER') else None
     jfd = os.open(journal, os.O_WRONLY | os.O_CREAT | os.O_APPEND)
     if not os.environ.get('VERIF_VERBOSE'):
         # solvers print progress when a wrapper drops options (a finding of C09); keep stdout clean
@@ -165,6 +202,8 @@ def _worker(mod, tier, seed, flavour, k, nw, skip, journal, outpath, maxviol):
         f.write(jdump(d))
     os.replace(outpath + '.tmp', outpath)      # atomic: a worker dying while it writes leaves no result file
     os.close(jfd)
+    if hits is not None:
+        _cover_dump(hits, '%s-%s-%d' % (mod.PROPERTY, flavour, k))
 
 
 def _case_at(mod, tier, seed, flavour, index):
